@@ -40,10 +40,28 @@ def transparent(f, e):
             x = mir.strip_casts(e[2][0])
             if isinstance(x, tuple) and x and x[0] == "load" and isinstance(x[1], tuple) and x[1][0] == "param" and len(x[2]) == 1:
                 return True
+            if isinstance(x, tuple) and x and x[0] == "field" and isinstance(x[1], tuple) and x[1][:2] in (("call", "CircularBuffer::as_slices"), ("call", "CircularBuffer::as_mut_slices")):
+                # the two pieces of the contents: each anywhere between 0 and size (Zone axiom), depending on the layout
+                return True
         return e[1] in _TRANSPARENT_PCALLS and all(transparent(f, x) for x in e[2])
     if k == "call":
         return e[1] in ("add_mod", "sub_mod") and all(transparent(f, x) for x in e[2])
+    if k == "field" and isinstance(e[1], tuple) and e[1][:2] == ("call", "translate_range_bounds"):
+        # a validated range: any pair with start <= end <= len (its ENSURES), nothing more
+        return True
     return False
+
+
+def _pieces(atom):
+    """number of distinct as_slices()/as_mut_slices() pieces whose length the obligation mentions: the two pieces of
+    one buffer are tied by len0 + len1 == size, which difference constraints cannot express, so an obligation over
+    two or more of them is left undecided rather than reported"""
+    ps = set()
+    for side in (atom[1], atom[2]):
+        for s in mir.walk(side):
+            if isinstance(s, tuple) and s and s[0] == "field" and isinstance(s[1], tuple) and s[1][:2] in (("call", "CircularBuffer::as_slices"), ("call", "CircularBuffer::as_mut_slices")):
+                ps.add(s)
+    return len(ps)
 
 
 def gen_sub(f):
@@ -63,17 +81,60 @@ def gen_sub(f):
     return out
 
 
-def run(prog):
-    key = id(prog)
+SPLIT = ("<[T]>::split_at", "<[T]>::split_at_mut", "<[T]>::rotate_left", "<[T]>::rotate_right")
+
+
+def _base_len(f, e):
+    from . import lenrule
+
+    e = mir.strip_casts(e)
+    if isinstance(e, tuple) and e and e[0] == "ref" and isinstance(e[1], tuple) and e[1][0] == "place" and tuple(e[1][2])[-1:] == ("items",):
+        return ("cparam", guards.buffer_cparam(f, e[1][1]) or "N")
+    return lenrule.slice_len(e)
+
+
+def gen_range_index(f):
+    """REQUIRES of the implicit checks of range indexing and splitting: `s[a..b]` needs a <= b <= len(s), `s[..b]`
+    b <= len(s), `s[a..]` a <= len(s), split_at/rotate(k) k <= len(s); len(s) symbolic (rules/lenrule.py)"""
+    from . import lenrule
+
+    out = []
+    for b, t in f.calls(False):
+        p = mir.callee_path(t) or ""
+        args = [f.deep_simplify(a) for a in f.call_args(b)]
+        if len(args) != 2:
+            continue
+        n = len(f.blocks[b]["stmts"])
+        if "Index<I>>::index" in p or "IndexMut<I>>::index_mut" in p:
+            r = args[1]
+            if not (isinstance(r, tuple) and r[0] == "agg"):
+                continue
+            d = {k: lenrule.norm_len(v) for k, v in r[3]}
+            L = _base_len(f, args[0])
+            v = r[2]
+            if v == "Range":
+                out.append((b, n, ("le", d["start"], d["end"], 0), "`[a..b]` needs a <= b", "RIDX1"))
+                out.append((b, n, ("le", d["end"], L, 0), "`[a..b]` needs b <= len", "RIDX1"))
+            elif v == "RangeTo":
+                out.append((b, n, ("le", d["end"], L, 0), "`[..b]` needs b <= len", "RIDX1"))
+            elif v == "RangeFrom":
+                out.append((b, n, ("le", d["start"], L, 0), "`[a..]` needs a <= len", "RIDX1"))
+        elif p in SPLIT:
+            out.append((b, n, ("le", lenrule.norm_len(args[1]), _base_len(f, args[0]), 0), "`%s(k)` needs k <= len" % p.split("::")[-1], "RIDX1"))
+    return out
+
+
+def run(prog, which="SUB1"):
+    key = (id(prog), which)
     eng = _CACHE.get(key)
     if eng is None:
-        eng = requires.Engine(prog, [gen_sub]).run()
+        eng = requires.Engine(prog, [gen_sub if which == "SUB1" else gen_range_index]).run()
         _CACHE[key] = eng
     return eng
 
 
 def report(ctx, prog, cfg, rule="SUB1", floor=30):
-    eng = run(prog)
+    eng = run(prog, rule)
     n_ok = 0
     for (fn, site, by) in eng.discharged:
         ctx.ok(rule, fn, site, by, cfg)
@@ -81,14 +142,15 @@ def report(ctx, prog, cfg, rule="SUB1", floor=30):
     undecided = []
     for (fn, b, r, reason) in eng.failures:
         f = prog.fns.get(fn)
-        if transparent(f, r.atom[1]) and transparent(f, r.atom[2]):
+        if transparent(f, r.atom[1]) and transparent(f, r.atom[2]) and _pieces(r.atom) <= 1:
             origin = r.chain[0]
             path = " -> ".join("%s (%s)" % (x, l) for x, l in reversed(r.chain))
             ctx.violate(rule, fn, "%s: %s" % (origin[0], r.why), r.chain[-1][1],
-                        "%s: nothing establishes `%s` in `%s`, which %s: the subtraction underflows (wraps in release builds, "
-                        "panics in debug builds)" % (rule, requires.fmt_atom(r.atom, f), fn, reason), cfg, detail="path: " + path)
+                        "%s: nothing establishes `%s` in `%s`, which %s: %s" % (rule, requires.fmt_atom(r.atom, f), fn, reason,
+                        "the subtraction underflows (wraps in release builds, panics in debug builds)" if rule == "SUB1" else
+                        "the slice index / split panics"), cfg, detail="path: " + path)
         else:
             undecided.append("%s: %s [%s]" % (fn, requires.fmt_atom(r.atom, f)[:120], r.chain[0][0]))
-    ctx.floor(rule, "subtractions proved not to underflow", n_ok, floor, cfg)
-    ctx.extra.setdefault("sub1", {})[cfg] = {"sites": eng.sites, "discharged": n_ok, "undecided_opaque": sorted(set(undecided))}
+    ctx.floor(rule, "subtractions proved not to underflow" if rule == "SUB1" else "range-index / split obligations proved", n_ok, floor, cfg)
+    ctx.extra.setdefault(rule.lower(), {})[cfg] = {"sites": eng.sites, "discharged": n_ok, "undecided_opaque": sorted(set(undecided))}
     return eng
